@@ -112,7 +112,7 @@ func check(c Case, r *vh.R) {
 	for si, ss := range c.Signers {
 		f := gen.Fixtures()[ss.Fixture]
 		vu, _ := url.Parse("https://" + strings.TrimPrefix(f.Hosts[0], "*.") + "/validity")
-		sg, err := signature.NewSigner(b.Version, chainOf(ss), f.Key, vu, time.Unix(baseDate+ss.DateOff, 0), time.Duration(ss.Duration)*time.Second)
+		sg, err := signature.NewSigner(b.Version, chainOf(ss), f.Key, vu, gen.Instant(baseDate+ss.DateOff, 0), time.Duration(ss.Duration)*time.Second)
 		if err != nil {
 			r.Failf("signer-error", "NewSigner: %v", err)
 			return
@@ -413,7 +413,7 @@ func check(c Case, r *vh.R) {
 		r.Failf("no-signatures", "signers ran but the bundle has no signatures section")
 		return
 	}
-	ver, err := signature.NewVerifier(target.Signatures, time.Unix(t, nsec), target.Version)
+	ver, err := signature.NewVerifier(target.Signatures, gen.Instant(t, nsec), target.Version)
 	if err != nil {
 		r.Class("rejected-newverifier")
 		if !changed && inWindow && !tooLong {
@@ -489,7 +489,7 @@ func check(c Case, r *vh.R) {
 
 // verifyAll is the untampered invariant.
 func verifyAll(b *bundle.Bundle, origs []origEx, signers []SignerSpec, t int64, when string) string {
-	ver, err := signature.NewVerifier(b.Signatures, time.Unix(t, 0), b.Version)
+	ver, err := signature.NewVerifier(b.Signatures, gen.Instant(t, 0), b.Version)
 	if err != nil {
 		return fmt.Sprintf("%s: NewVerifier at t=%d: %v", when, t, err)
 	}
